@@ -110,6 +110,23 @@
       its audit is `auditResponse` on the model's view).  `C10_audit_nofit`: row 4 (the reply TSIG does
       not fit), whatever the outcome — the audit returns no tag.
 
+  Recorded correction of the *oracle* (`Spec.ServerTsig.audit`): the clause "answered normally"
+  compares with the response to `stripTsigRr req`, which decrements ARCOUNT (octets 10–11).  The name
+  decoder follows compression pointers to any earlier offset, the header included, so ARCOUNT can be
+  part of a name the server decodes, and stripping the TSIG RR then changes what is asked:
+    · QNAME = `C0 0B` (pointer to octet 11), ARCOUNT 1 (the TSIG RR): signed, octet 11 = 1 and the
+      QNAME is the label `C0`, then an 11-octet label (QTYPE, QCLASS and the first 7 octets of the TSIG
+      owner, key name "abcdef."), then the root; stripped, octet 11 = 0 and the QNAME is the root.
+      With a root zone loaded: NXDOMAIN signed, NOERROR plain — the old audit said
+      `answer-header-differs`;
+    · OPT owner = `C0 0B` with ARCOUNT 256 (octet 11 = 0: the root); stripped, ARCOUNT 255, octet 11 =
+      `FF` is a pointer to nowhere: REFUSED signed, FORMERR plain.
+  Neither is a server defect ("the same request without its TSIG RR" does not exist).  The audit now
+  makes the comparison only under `plainComparable`: the scan of the stripped request has the same
+  question, EDNS state and UDP limit and ends with the verdict the decision table gives after the TSIG
+  RR (`postVerdict`); otherwise the clause is skipped, all others apply.  Both requests are in
+  corpus/C10 (they pass; the implementation answers them as the model does).
+
   Proved: (a)–(m).  Not proved, precisely:
   (1) `C10_full` itself.  Of the audit, the clauses of `auditResponse` *after* the response is decoded
       remain for rows 1–3 (row 4 is closed: `C10_audit_nofit`), all of which need first
@@ -1244,7 +1261,8 @@ theorem audit_eq_of_run {cfg : Cfg} {cat : List Spec.Server.ZoneCfg} {tr : Trans
     Spec.ServerTsig.audit hmSpec cat cfg.payload (specKeys cfg.keys) req now (tr = .udp) r plain =
       Spec.ServerTsig.auditResponse hmSpec (Spec.Server.specScan cat cfg.payload req)
         ⟨kn.labels, fieldsOf alg.labels rest, mw.toList, modelOutcome cfg.keys nowT kn alg rest mw.toList,
-          Spec.ServerTsig.findKey (specKeys cfg.keys) kn.labels⟩ now (tr = .udp) (Spec.Server.hdr req 0) r plain := by
+          Spec.ServerTsig.findKey (specKeys cfg.keys) kn.labels⟩ now (tr = .udp) (Spec.Server.hdr req 0)
+        (Spec.ServerTsig.plainComparable cat cfg.payload req) r plain := by
   unfold Spec.ServerTsig.audit
   simp only [h.respond, h.verdict, h.hview, Bool.not_true, Bool.false_eq_true, if_false, ne_eq, not_true_eq_false]
 
@@ -1285,7 +1303,7 @@ theorem C10_audit_nofit (cfg : Cfg) (cat : List Spec.Server.ZoneCfg) (tr : Trans
   obtain ⟨r1, r2, _, r4, r5, _, r7⟩ := ServerContent.decoded_nofit F _ (qBody_norecs _) hG hts hh b mac hf dm hdm
   obtain ⟨hq1, hq2, hq3⟩ := qBody_norecs (Spec.Server.specScanWith (catKind cfg) cfg.payload req).question
   obtain ⟨_, c2, _, _⟩ := opt_of_good macFn F _ hG (by rw [hq3]; simp) b mac hf dm hdm
-  refine auditResponse_nofit hmSpec _ _ now _ _ b plain dm hdm ?_ r1 r2 ?_ ?_ ?_
+  refine auditResponse_nofit hmSpec _ _ now _ _ _ b plain dm hdm ?_ r1 r2 ?_ ?_ ?_
   · -- does not fit
     rw [auditNeed_eq _ _ iq ie kn alg h.hkn h.halg, auditLimit_eq _ _ il tr]
     rcases hnf with ⟨an, rc, mode, rr, han, hrep, hnfit⟩ | ⟨a, key, ha, hk, hver, hnfit⟩
